@@ -66,6 +66,10 @@ def faults(g):
     add("block-whitespace-only-line", "<%\n  \t\n" + "\n" * k + margin + "z = " + BAD + "\n%>", dline=2 + k)
     add("module-block-opener-trailing-tab", "<%!\t\n" + margin + "z = " + BAD + "\n%>", dline=1)
     add("expr-opener-trailing-blank", "${ \n" + " \n" * k + "(" + BAD + ")}", dline=1 + k)
+    # a fault whose extent covers two lines (missing comma between items on consecutive lines): reported where it begins
+    add("block-missing-comma", "<%\nz = [1,\n" + "0,\n" * k + "2\n3,\n4]\n%>", dline=2 + k)
+    add("expr-missing-comma", "${f(1,\n" + "0,\n" * k + "2\n3)}", dline=1 + k)
+    add("module-block-missing-comma", "<%!\nz = {'a': 1,\n" + "'c': 0,\n" * k + "'b': 2\n'd': 3}\n%>", dline=2 + k)
     add("block-oneline", "<% z = " + BAD + " %>")
     add("block-tagline", "<% a = 1\n" + "b = 2\n" * k + "z = " + BAD + " %>", dline=1 + k)
     add("module-block", "<%!\n" + "".join(margin + l + "\n" for l in pre) + margin + "z = " + BAD + "\n%>", dline=1 + len(pre))
